@@ -11,6 +11,7 @@ import (
 	"os"
 	"reflect"
 	"runtime/debug"
+	"strings"
 	"unsafe"
 
 	secp "github.com/bytemare/secp256k1"
@@ -1291,7 +1292,7 @@ func (x *Env) observe(ts *taskState, oi int, op *Op, recv int, recvIsE int) {
 	// global state: "the package keeps no mutable global state" is C16's
 	// statement only; the other properties do not forbid (say) a cache
 	if name, ok := x.G.CheckDeep(); !ok && x.R.Prop == "C16" && !noMGlob {
-		x.fail(ts, oi, op, "M-glob", name, fmt.Sprintf("package-level variable %s changed after initialisation", name))
+		x.fail(ts, oi, op, "M-glob", name, fmt.Sprintf("%s changed after initialisation", stateName(name)))
 		return
 	}
 	ts.digest = append(ts.digest, dg)
@@ -1469,7 +1470,7 @@ func (x *Env) retain(ts *taskState, oi int, op *Op, what string, b []byte) bool 
 		}
 	}
 	if n, ok := x.G.Overlap(rg); ok {
-		return bad("package-level variable " + n)
+		return bad(stateName(n))
 	}
 	for i, e := range ts.E {
 		q := uintptr(unsafe.Pointer(e))
@@ -1888,7 +1889,7 @@ func Exec(run *Run, ar *arena.Arena, va *arena.Vars, g *Globals, sites *SiteTabl
 				where = " at " + sites.Describe(site)
 			}
 			ts := states[s.Cur()%len(states)]
-			x.fail(ts, ts.curOp, ts.curOpP, "M-glob", name, fmt.Sprintf("package-level variable %s modified during a call%s", name, where))
+			x.fail(ts, ts.curOp, ts.curOpP, "M-glob", name, fmt.Sprintf("%s modified during a call%s", stateName(name), where))
 		}
 	}
 	fns := make([]func(), len(run.Tasks))
@@ -2034,3 +2035,12 @@ func (x *Env) finish() Result {
 
 var _ = io.EOF
 var _ = errors.New
+
+// stateName words a registered variable: a package-level variable, or a local
+// variable that a closure built during package initialisation keeps alive.
+func stateName(n string) string {
+	if strings.Contains(n, "(local variable captured") {
+		return "package state " + n
+	}
+	return "package-level variable " + n
+}
